@@ -49,6 +49,20 @@ static std::string parse_text(Document& doc, const std::string& text) {
   return "";
 }
 
+// The decoding kernel itself: parseStringInplace(src, err) with src just behind the opening quote of a literal that sits in a
+// buffer padded like the parser's private copy (64 zero bytes). In the runtime-dispatch build the resolver picks one clone per
+// host, so the SSE clone and the AVX2 clone are also called directly.
+typedef size_t (*DecodeFn)(uint8_t*&, SonicError&);
+struct DecodeKernel { const char* name; DecodeFn fn; };
+static size_t k_dispatch(uint8_t*& p, SonicError& e) { return internal::parseStringInplace(p, e); }
+#ifdef SONIC_DYNAMIC_DISPATCH
+__attribute__((target(SONIC_WESTMERE))) static size_t k_sse(uint8_t*& p, SonicError& e) { return internal::sse::parseStringInplace(p, e); }
+__attribute__((target(SONIC_HASWELL))) static size_t k_avx2(uint8_t*& p, SonicError& e) { return internal::avx2::parseStringInplace(p, e); }
+static const DecodeKernel kDecoders[] = {{"dispatch", k_dispatch}, {"sse-clone", k_sse}, {"avx2-clone", k_avx2}};
+#else
+static const DecodeKernel kDecoders[] = {{"static", k_dispatch}};
+#endif
+
 // body must not contain an unescaped quote (the literal would end early); callers guarantee that
 static std::string judge(const std::string& body, int ctx, size_t pad, Case& c) {
   Expect e = expectation(body);
@@ -137,6 +151,38 @@ static std::string judge(const std::string& body, int ctx, size_t pad, Case& c) 
       if (std::string(target.data(), target.size()) != "12345") return "on-demand key: wrong slice " + printable(std::string(target.data(), target.size()), 60);
       return "";
     }
+    case 5: {  // the kernel, called directly
+      for (auto& K : kDecoders) {
+        std::string text = padding + lit + ",1]";
+        std::unique_ptr<uint8_t[]> buf(new uint8_t[text.size() + 64]);
+        memcpy(buf.get(), text.data(), text.size());
+        memset(buf.get() + text.size(), 0, 64);
+        uint8_t* src = buf.get() + pad + 1;
+        uint8_t* start = src;
+        SonicError err = kErrorNone;
+        size_t n = K.fn(src, err);
+        bool ok = err == kErrorNone;
+        if (ok != e.accept) {
+          snprintf(b, sizeof b, "kernel %s: literal %s but reference says %s (code %d)", K.name, ok ? "accepted" : "rejected", e.accept ? "accept" : "reject", (int)err);
+          return b;
+        }
+        if (ok) {
+          if (!(m = same(sonic_json::StringView((const char*)start, n), K.name)).empty()) return "kernel " + m;
+          if (src != start + body.size() + 1) return std::string("kernel ") + K.name + ": cursor is not just behind the closing quote";
+        } else {
+          int code = (int)err;
+          if (code != kParseErrorUnEscaped && code != kParseErrorEscapedFormat && code != kParseErrorEscapedUnicode) {
+            snprintf(b, sizeof b, "kernel %s: rejected with code %d which is not a string error class", K.name, code);
+            return b;
+          }
+          if (e.code && code != e.code) {
+            snprintf(b, sizeof b, "kernel %s: rejected with code %d, expected %d", K.name, code, e.code);
+            return b;
+          }
+        }
+      }
+      return "";
+    }
     default: {  // UpdateLazy decodes keys of both sides
       if (!e.accept) return "";
       std::string t = "{" + lit + ":1,\"p\":2}";
@@ -187,7 +233,8 @@ static void property(Src& s, Case& c) {
   if (g_exh) {
     // 256 consecutive \u values per case: together the cases cover all 65536 values
     unsigned hi = (unsigned)(c.index % 256);
-    int ctx = (int)((c.index / 256) % 3);
+    static const int exh_ctx[] = {0, 1, 2, 5};
+    int ctx = exh_ctx[(c.index / 256) % 4];
     size_t pad = (size_t)s.pick(0, 40);
     std::string pre, suf;
     filler(s, pre, off);
@@ -214,7 +261,8 @@ static void property(Src& s, Case& c) {
     // one high surrogate per case followed by EVERY low surrogate (1024 accepted pairs), and by 96 second escapes that are
     // not low surrogates (boundaries of the ranges + spread): together the cases cover all 1024 x 1024 pairs
     unsigned hi = 0xd800 + (unsigned)(c.index % 1024);
-    int ctx = (int)((c.index / 1024) % 3);
+    static const int exh_ctx2[] = {0, 1, 2, 5};
+    int ctx = exh_ctx2[(c.index / 1024) % 4];
     size_t pad = (size_t)s.pick(0, 40);
     std::string pre, suf;
     filler(s, pre, off);
@@ -345,12 +393,12 @@ static void property(Src& s, Case& c) {
   // sometimes a second feature further on (two features: class not demanded when both are faults)
   if (s.coin(1, 10)) suf += feature;
   std::string body = pre + feature + suf;
-  int ctx = (int)s.index(5);
+  int ctx = (int)s.index(6);
   size_t pad = s.coin(1, 2) ? 0 : (size_t)s.pick(0, 70);
   c.note("body", body);
   c.note("ctx", std::to_string(ctx));
   c.note("pad", std::to_string(pad));
-  static const char* cn[] = {"root", "array", "key", "ondemand-key", "updatelazy-key"};
+  static const char* cn[] = {"root", "array", "key", "ondemand-key", "updatelazy-key", "kernel"};
   c.cls("feature:" + kind);
   c.cls(std::string("ctx:") + cn[ctx]);
   c.cls("offset%32=" + std::to_string((off + pad + 1) % 32 / 8 * 8) + "..");
@@ -377,7 +425,7 @@ static void direct(const Fields& f, Case& c) {
   }
   int ctx = field(f, "ctx") ? atoi(field(f, "ctx")->c_str()) : -1;
   size_t pad = field(f, "pad") ? (size_t)atoi(field(f, "pad")->c_str()) : 0;
-  for (int k = 0; k < 5; k++) {
+  for (int k = 0; k < 6; k++) {
     if (ctx >= 0 && ctx != k) continue;
     std::string m = judge(*body, k, pad, c);
     if (!m.empty()) c.fail(m + " | body=" + printable(*body, 300) + " ctx=" + std::to_string(k));
